@@ -145,6 +145,26 @@ def scan_known(chk, trace):
                         f"parent {p} has nothing to offer",
                         {"driver": "run-ca",
                          "behaviour": behaviour_of(seg)})
+            # a certificate the parent withdrew on its own and the child
+            # never asks for again
+            for c, certs in a.get("rcv", {}).items():
+                p = a.get("parent", {}).get(c)
+                if not a.get("exists", {}).get(c) or \
+                        p not in a.get("rcv", {}) or \
+                        not a["exists"].get(p) or \
+                        a.get("cstate", {}).get(c) != "active":
+                    continue
+                offer = set(a.get("ent", {}).get(c, [])) & \
+                    set(a["rcv"][p].get("cur", []))
+                for x in ("cur", "new"):
+                    if certs.get(x) and not a["iss"][c].get(x) \
+                            and set(certs[x]) == offer:
+                        chk.report(
+                            "cert-dropped-by-parent-not-re-requested:Settled",
+                            f"CA {c} believes its {x} key holds {certs[x]} "
+                            f"but parent {p} issues no certificate for it",
+                            {"driver": "run-ca",
+                             "behaviour": behaviour_of(seg)})
             for c, ex in a.get("exists", {}).items():
                 if ex:
                     continue
